@@ -48,6 +48,7 @@ let table : (string * (z list -> z)) list = [
   ("ctu_test", judge_ctu_test);
   ("pivot", judge_pivot);
   ("tu", judge_tu);
+  ("tu_cert", judge_tu_cert);
   ("regular", judge_regular);
   ("sp", judge_sp);
   ("balanced", judge_balanced);
